@@ -107,7 +107,7 @@ class HBC(Harness):
         if p.get("seed") == "sym":
             sd = eng.integer("seed")
             if not eng.concrete:
-                eng.assume(z3.And(sd.e >= 0, sd.e <= 64))
+                eng.assume(z3.And(sd.e >= 0, sd.e <= 2))
             user_opts["random_seed"] = sd
         if p.get("nonlinear") is False:
             user_opts["nonlinear_scaling"] = False
